@@ -243,6 +243,29 @@ def gen_plan(seed, tier, idx):
             else:
                 ops.append(g.value_op(owner))
         clients.append(ops)
+    if config != "single" and rng.random() < 0.6:
+        # collision burst: all clients derive DIFFERENT new indexes from one shared node at about the same point of
+        # their histories, and re-derive one of them later (a per-node child memo must survive that)
+        hub = rng.choice(g.by_owner["setup"])
+        hd = g.handles[hub]
+        if len(hd["path"]) < MAX_DEPTH:
+            pool = [i for i in ([3, 4, 5, 6, 7, 8, 9, 10, 11] if not hd["private"] else
+                                [3, 4, 5, 6, HARD + 3, HARD + 4, 7, 8, 9])]
+            rng.shuffle(pool)
+            idxs = pool[:len(clients)]
+            for c, ops in enumerate(clients):
+                at = rng.randint(0, min(3, len(ops)))
+                out = "c%d.b" % c
+                ops.insert(at, {"op": "ckd", "h": hub, "i": idxs[c], "out": out})
+                g._add(out, hd["root"], hd["path"] + [idxs[c]], hd["private"], "c%d" % c)
+            for c, ops in enumerate(clients):
+                again = idxs[(c + 1) % len(idxs)]
+                ops.append({"op": rng.choice(["ckd", "derive_path"]), "h": hub, "out": "c%d.r" % c,
+                            **({"i": again} if True else {})})
+                if ops[-1]["op"] == "derive_path":
+                    ops[-1]["il"] = [again]
+                    del ops[-1]["i"]
+                g._add("c%d.r" % c, hd["root"], hd["path"] + [again], hd["private"], "c%d" % c)
     for c, ops in enumerate(clients):
         for j, op in enumerate(ops):
             op["id"] = "c%d#%d" % (c, j)
@@ -462,10 +485,19 @@ def _run_child(plan):
     def mk(c):
         ops = plan["clients"][c]
 
+        def obj_of(op):
+            if "h" in op:
+                return op["h"]
+            if "g" in op:
+                return ex.gens.get(op["g"], {}).get("h")
+            return "%s.m" % op["root"] if "root" in op else None
+
         def body():
             for j, op in enumerate(ops):
+                b.next_obj[c] = obj_of(op)
                 b.begin_op(c, op.get("id", "c%d#%d" % (c, j)))
                 b.yield_point(c, "op", is_op=True)
+                b.next_obj[c] = obj_of(ops[j + 1]) if j + 1 < len(ops) else None
                 ex.do("c%d" % c, j, op, b, c)
         return body
 
